@@ -85,7 +85,8 @@ func init() {
 				sumh += geo.DistanceHaversine(ls[len(ls)-1], nx)
 				ls = append(ls, nx)
 			}
-			c.emit(map[string]interface{}{"k": "glen", "res": um(geo.Length(ls) - sum), "resh": um(geo.LengthHaversine(ls) - sumh), "nt": 1})
+			// (the deprecated spelling LengthHaversign is the same function: its difference is added to the haversine residual)
+			c.emit(map[string]interface{}{"k": "glen", "res": um(geo.Length(ls) - sum), "resh": um(geo.LengthHaversine(ls)-sumh) + um(geo.LengthHaversign(ls)-geo.LengthHaversine(ls)), "nt": 1})
 			// the same segments held by the other kinds: a ring (its stored segments, nothing added), two lines sharing the
 			// split vertex, a polygon of two rings, a collection of those - all sums of the segment distances
 			if i%4 == 0 && len(ls) >= 3 {
